@@ -167,9 +167,12 @@ class ProtocolContext:
                 self.is_sending, bool
             ), f"{self}: Coding error"  # TODO: remove
 
-        def effect_state(timed_out: bool) -> None:
+        def effect_state(timed_out: bool, state: _ProtocolStateT) -> None:
             """Take any actions indicated by state, and optionally set expiry timer."""
             # a separate function, so can be spawned off with call_soon()
+
+            if self._state is not state:  # superseded by a later set_state()
+                return
 
             assert isinstance(
                 self.is_sending, bool
@@ -277,7 +280,9 @@ class ProtocolContext:
         assert isinstance(self.is_sending, bool)  # TODO: remove
 
         # remaining code spawned off with a call_soon(), so early return to caller
-        self._loop.call_soon_threadsafe(effect_state, timed_out)  # calls expire_state
+        self._loop.call_soon_threadsafe(  # calls expire_state
+            effect_state, timed_out, self._state
+        )
 
         if not isinstance(self._state, WantRply):
             _LOGGER.debug("AFTER. = %s", self)
